@@ -108,3 +108,37 @@ def decides(fn, start, outcomes, atoms, spec, **kw):
     compared with `spec` (SMT over the atoms) by z3.  spec values: formula (iff) | ("=>", f) | ("<=", f)."""
     from . import mirdec as _MD
     return lambda F: _MD.decides(F, fn, start, outcomes, atoms, spec, **kw)
+
+
+def sorted_before_dedup(fn_name_re):
+    """`Vec::dedup` only removes *consecutive* duplicates: in every function whose name matches, each dedup call must be
+    preceded on every path by a sort of the same vector (receiver compared by source-level name)."""
+    import re as _re
+    from . import mir as _M
+    from .mirflow import short_ty as _st, _debug_name, Graph as _G
+
+    def run(F):
+        out = []
+        for name, fn in F.items():
+            if not _re.search(fn_name_re, name):
+                continue
+            ded = [b for b in fn.blocks.values() if not b.cleanup and b.kind == "call" and _re.search(r"Vec::<.*>::dedup(_by|_by_key)?$", _re.sub(r"::<[^>]*>$", "", _st(b.callee or "")))]
+            if not ded:
+                continue
+            fc = FnCheck(F, name)
+            for db in ded:
+                recv = _debug_name(fn, (_re.findall(r"_\d+", db.args) or [""])[0])
+                D = Ev(r"::dedup", kind="call", also=lambda f, b, t, idx=db.idx: b.idx == idx, name="%s.dedup()" % (recv or "vec"))
+                S = Ev(r"::sort(_unstable)?(_by|_by_key)?(::<.*>)?\(", kind="call",
+                       also=lambda f, b, t, recv=recv: (not recv) or _debug_name(f, (_re.findall(r"_\d+", b.args) or [""])[0]) == recv, name="%s.sort*()" % (recv or "vec"))
+                if fc.count(S) == 0:
+                    r = fc.reachable(D)
+                    out.append(Result("violated" if r.verdict == "holds" else "inconclusive",
+                                      "%s calls %s on a vector that is never sorted in this function: Vec::dedup removes only consecutive duplicates, so repeated ids that are not adjacent survive (counts are inflated, entries processed twice)" % (name.split("::")[-1], D.name),
+                                      queries=r.queries, seconds=r.seconds, sample={"fn": name, "kind": "PRECEDES", "A": S.name, "B": D.name}))
+                else:
+                    out.append(fc.precedes(S, D))
+        if not out:
+            out.append(Result("inconclusive", "no dedup call found in functions matching /%s/" % fn_name_re))
+        return out
+    return run
